@@ -439,6 +439,59 @@ CHECKS = {
 NOT_YET = "no check registered yet in this revision (model under construction; see DESIGN.md §6)"
 
 
+# ---- updates after the deepening round (kept separate so that the original entries above stay readable)
+CHECKS["C09"].update(
+    text="Proved in Coq for all configurations and all schedules of an executable LTS of the concurrent writer (single-file "
+         "parallel, serial inner, sharded two-level; budget with explicit wait set; per-worker descriptor open/close with "
+         "OSError outcomes): budget bound, callback and tensor-object mutual exclusion, callback exactly once, each tensor "
+         "evaluated at most once, no lost wake-up, untimed waits (timeout arguments re-extracted from the source on every "
+         "run), descriptors valid while writing and all closed on every return path, exception delivered only after all "
+         "workers stopped with the budget released, termination measure, deadlock freedom, files equal to the serial save. "
+         "The LTS is tied to the code by regenerated budget arithmetic plus Coq-checked event traces of the real "
+         "unload_from_model under a cooperative scheduler (exhaustive DFS for tiny configurations, random/PCT beyond; fault "
+         "kinds RuntimeError/BaseException/OSError/short source/EMFILE on open), plus a real-thread soak.",
+    note=TRUST + "Modelled, not verified: the GIL, Lock/Condition/ThreadPoolExecutor contracts (they are the LTS rules), OS "
+         "semantics of several r+b writers on disjoint ranges. Oracle only: callback=None paths; the serial writer's single "
+         "`with open` descriptor and the truncate descriptor; the streams use dense layouts (aligned offsets are data of "
+         "the model). 'An open fault makes the save raise' follows from C09_error_path plus the failing POpen step.",
+    technique="Coq proof over LTS of the writer (all schedules) + Coq-checked event traces under a cooperative scheduler")
+CHECKS["C10"].update(
+    text="Coq theorems over an executable file-system/posixpath/kernel model (containment of every read, fail-closed, "
+         "world-changing histories, load base = directory of the model file's entry), over the call structure of the read "
+         "methods extracted from the source on every run (every open dominated by a passing check with no store to "
+         "base_dir/location in between: checker proved sound for all runs, C10_reading_methods_checked), and over a model of "
+         "load()'s tensor traversal (complete for every tensor position: initializers at any depth, TENSOR/TENSORS "
+         "attributes, functions). Tied by differential execution on generated directory trees, histories, load spellings, "
+         "nested models and per-call event traces evaluated in Coq; the oracle is independent of os.path.realpath.",
+    note=TRUST + "Modelled, not verified: TOCTOU between check and open, non-POSIX normcase, the kernel's symlink nesting "
+         "bound (a universally quantified parameter of every theorem), permissions, FIFOs/devices, mmap. The extraction "
+         "treats `<tensor>.path` passed to os.path.* and _paths_refer_to_same_file as name-only uses.",
+    technique="Coq proof over fs/realpath model + call-structure checker over per-run extraction of the read methods; "
+              "vm_compute correspondence on generated worlds and event traces")
+CHECKS["C14"].update(
+    text="Proved in Coq: identity rule, Sequential/PassManager flag algebra and convergence, call_onnx_api read-only for "
+         "every outcome, and - for ClearMetadataAndDocString, RemoveUnusedNodes (flat), TopologicalSort, "
+         "Add/RemoveInitializers(To/From)Inputs, OutputFix (contract level) and RemoveUnusedOpsets - an EXACT modified flag "
+         "(False iff the model state is unchanged) and a fixpoint theorem with explicit bound; OutputFix additionally: "
+         "inserted nodes live in the graph that owns the output. Tied by vm_compute correspondence on 9 streams (infra, "
+         "call_onnx_api, clear, dce, toposort, inits/inputs, outputfix, unused_opsets, translated size limit). The other "
+         "built-in passes (CSE, identity elimination, lifting, inliner, dedup, NameFix, unused functions, shape-inference "
+         "merge) are decided by the property oracle over every pass, compositions, pass-instance reuse and ONNX-boundary "
+         "faults, with deterministic families (optional outputs, function call graphs, duplicated outputs).",
+    technique="Coq contract models of the pass infrastructure and 7 passes + vm_compute correspondence; public-API oracle "
+              "sweep over all passes")
+CHECKS["C18"].update(
+    text="Coq theorems on an executable model of _find_subgraph_bounded_by_values / extract / the cloner's definedness "
+         "checks / analyze_implicit_usage. The model runs inside Coq on a value table DERIVED from the graph structure "
+         "(C18_derived_accessors); the implementation's value.graph / producer() / is_initializer() are pinned against that "
+         "derivation on every generated graph. C18_semantics and C18_semantics_nested are full strength; "
+         "C18_captures_exact_structural states capture exactness on the structure alone (every nested graph, all depths).",
+    note=TRUST + "Outside the proof: list.sort by node index is modelled as a filter of the original order; Python set "
+         "iteration order is a universally quantified shuffle parameter; the value-copying part of the cloner is checked by "
+         "the oracle only (C13); the extractor and analysis sources are not translated, they are tied by correspondence.",
+    technique="Coq proof over model run on a structure-derived value table; vm_compute correspondence incl. accessor pin")
+
+
 def main():
     props = [json.loads(l) for l in open(os.path.join(VERIF, "properties.jsonl"))]
     checks, na = [], []
